@@ -234,3 +234,159 @@ Proof.
   cbv zeta. split; [repeat constructor; cbn; intuition discriminate|].
   intros H. apply znodupb_spec in H. discriminate H.
 Qed.
+
+(* ================================================================================================================
+   on the real writer models
+   The theorems above speak about the abstract emit pipelines of Determinism.v (kept: they isolate "every set-iteration
+   site is followed by a sort on a unique key").  The theorems below are the headline of C14's model half: the same three
+   statements on the REAL writer models of the codecs — Xmi.save_xmi and Json.save_json over the reachability traversal
+   Reach.find_all_fs (Cas._find_all_fs), the very models C01/C02/C04 are proved about and that are compared with cassis on
+   every run of ./check C01 C02 C04.  Proofs: DocDeterminismProofs.v.
+
+   Vocabulary (DocDeterminism.v).  member_order_variant c1 c2: same objects, same id generator, same sofas in the same
+   order, per view a Permutation of the member list (v_members = the id()-dependent select_all order; a view is a
+   multiset).  settledb inl s c (boolean; = `settled`, the declarative form, by C14_real_settledb_spec): every sofa data array
+   has an id and the traversal does not consult the id generator, i.e. "every structure the chosen format writes separately
+   already has an id" (inl = false: XMI, inlinable collections are not structures of their own; inl = true: JSON).
+   only_ids_added c c1 W: same views, same objects in the same order with the same types and slots, ids present before
+   are kept, an id present only afterwards is fresh (in [old next, new next)) and belongs to a written structure (W).
+
+   Which equality holds.  EXACT equality of the abstract documents (xdoc / json), not merely equality up to the
+   element permutation used in C01/C04: the feature structures are emitted in the order of sort_ids (ids pairwise distinct),
+   the namespace prefixes are allocated while walking THAT sorted list (not in traversal order), the sofas and views follow
+   Cas.sofas order, and the members attribute is sorted numerically.  The traversal order (w_all, insertion order) does
+   differ between the two CASes; it does not reach the document.  The CAS is left unchanged (c1' = c1). *)
+From Cassis Require Import Heap Schema Canon Lex Reach ReachProofs ReachSpec XmiDoc Xmi XmiProofs XmiWf XmiDocOk.
+From Cassis Require Import DocDeterminism DocDeterminismProofs CorrC04.
+Open Scope Z_scope.
+
+(* boolean premise = declarative premise *)
+Theorem C14_real_settledb_spec : forall inl s c w, find_all_fs inl s c = Ok w ->
+  (settledb inl s c = true <->
+   (forall o, reach inl s (c_heap c) (member_seeds c) o -> exists f i, hget (c_heap c) o = Some f /\ o_id f = Some i) /\
+   (forall v o, In v (c_views c) -> s_arr (v_sofa v) = Some o -> exists f i, hget (c_heap c) o = Some f /\ o_id f = Some i)).
+Proof. exact settledb_spec. Qed.
+Print Assumptions C14_real_settledb_spec.
+
+(* the traversal itself: with every reachable structure carrying an id it changes nothing (any seed order) ... *)
+Theorem C14_traversal_assigns_nothing : forall inl s c seeds w, find_all_from inl s c seeds = Ok w ->
+  (forall o, reach inl s (c_heap c) seeds o -> exists f i, hget (c_heap c) o = Some f /\ o_id f = Some i) ->
+  w_heap w = c_heap c /\ w_next w = c_next_id c.
+Proof. exact find_all_noassign. Qed.
+Print Assumptions C14_traversal_assigns_nothing.
+
+(* ... and repeated on any CAS that carries at least the ids it left behind (generalises ReachSpec.find_all_stable: the XMI
+   writer hands ids to sofa data arrays after the traversal) it finds the same structures under the same ids in the same
+   order and assigns nothing *)
+Theorem C14_traversal_again : forall inl s c seeds w c2, 0 < c_next_id c -> find_all_from inl s c seeds = Ok w ->
+  ids_le (w_heap w) (c_heap c2) ->
+  find_all_from inl s c2 seeds = Ok (mkW (c_heap c2) (c_next_id c2) (w_all w) (w_queued w) (w_open w)).
+Proof. exact find_all_again. Qed.
+Print Assumptions C14_traversal_again.
+
+(* XMI: permuting the member lists of the views (the select_all order) of a well-formed CAS in which everything written has
+   an id yields the SAME document, and the save leaves the CAS as it was *)
+Theorem C14_xmi_save_member_order_independent :
+  forall (fmt : flt -> string) s c1 c2 d c1',
+  wf_casb s c1 = true -> settledb false s c1 = true -> member_order_variant c1 c2 ->
+  save_xmi fmt s c1 = Ok (d, c1') -> c1' = c1 /\ save_xmi fmt s c2 = Ok (d, c2).
+Proof. exact xmi_save_member_order_independent. Qed.
+Print Assumptions C14_xmi_save_member_order_independent.
+
+(* the same for any CAS with the same objects, the same views and the same SET of members per view, when no structure is
+   indexed twice in one view (with multiplicities the members attribute lists an id once per occurrence) *)
+Theorem C14_xmi_save_member_set_independent :
+  forall (fmt : flt -> string) s c1 c2 d c1',
+  wf_casb s c1 = true -> settledb false s c1 = true -> member_set_variant c1 c2 -> members_nodup c1 -> members_nodup c2 ->
+  save_xmi fmt s c1 = Ok (d, c1') -> c1' = c1 /\ save_xmi fmt s c2 = Ok (d, c2).
+Proof. exact xmi_save_member_set_independent. Qed.
+Print Assumptions C14_xmi_save_member_set_independent.
+
+(* XMI: saving again writes the same document and changes nothing — for EVERY CAS the writer accepts (ids may have been
+   missing before the first save); the only premise is that the id generator hands out positive ids *)
+Theorem C14_xmi_save_idempotent :
+  forall (fmt : flt -> string) s c d c1, 0 < c_next_id c -> save_xmi fmt s c = Ok (d, c1) -> save_xmi fmt s c1 = Ok (d, c1).
+Proof. exact xmi_save_idempotent. Qed.
+Print Assumptions C14_xmi_save_idempotent.
+
+(* XMI: a save changes nothing but the ids of id-less structures it writes, taken fresh from the generator (no premise) *)
+Theorem C14_xmi_save_preserves_content :
+  forall (fmt : flt -> string) s c d c1, save_xmi fmt s c = Ok (d, c1) ->
+  exists all, written s c = Ok (c1, all) /\ only_ids_added c c1 (listed all).
+Proof. exact xmi_save_preserves_content. Qed.
+Print Assumptions C14_xmi_save_preserves_content.
+
+(* non-vacuity (XMI): the example CAS with two structures indexed in the first view satisfies the premises in both member
+   orders, the two saves give the identical document (10 elements) and leave the CAS alone; the variant with two id-less
+   structures is well-formed but not settled: its save assigns ids 17 and 18, and saving again gives the same document *)
+Example C14_xmi_real_premises_hold :
+  wf_casb dx_schema dx_cas = true /\ settledb false dx_schema dx_cas = true /\ member_order_variant dx_cas dx_cas_perm /\
+  dx_cas <> dx_cas_perm /\
+  (match save_xmi (tab_fmt XmiExample.ex_ftab) dx_schema dx_cas, save_xmi (tab_fmt XmiExample.ex_ftab) dx_schema dx_cas_perm with
+   | Ok (d1, c1), Ok (d2, c2) => list_eqb xelem_eqb d1 d2 && (List.length d1 =? 10)%nat && (c_next_id c1 =? 17) && (c_next_id c2 =? 17)
+   | _, _ => false end) = true /\
+  wf_casb dx_schema dx_cas_noid = true /\ settledb false dx_schema dx_cas_noid = false /\
+  (match save_xmi (tab_fmt XmiExample.ex_ftab) dx_schema dx_cas_noid with
+   | Ok (d1, c1) => match save_xmi (tab_fmt XmiExample.ex_ftab) dx_schema c1 with
+                    | Ok (d2, c2) => list_eqb xelem_eqb d1 d2 && (c_next_id c1 =? 19) && (c_next_id c2 =? 19)
+                    | _ => false end
+   | _ => false end) = true.
+Proof.
+  split; [vm_compute; reflexivity|]. split; [vm_compute; reflexivity|]. split.
+  { split; [reflexivity|]. split; [reflexivity|]. constructor; [split; [reflexivity|apply perm_swap]|].
+    constructor; [split; [reflexivity|apply Permutation_refl]|constructor]. }
+  split; [intros E; discriminate E|]. repeat split; vm_compute; reflexivity.
+Qed.
+
+(* ---- JSON ---- *)
+From Cassis Require Import JsonDoc Json JsonProofs JsonLex.
+Open Scope list_scope.
+Open Scope Z_scope.
+
+(* JSON: the same independence, for every type-system mode.  Premises: the traversal's own input conditions (Reach.wf_heapb,
+   members live, ids_okb: C15) and settledb true.  EXACT equality of the json values. *)
+Theorem C14_json_save_member_order_independent :
+  forall L s mode c1 c2 d c1',
+  reach_inb true s c1 = true -> settledb true s c1 = true -> member_order_variant c1 c2 ->
+  save_json L s mode c1 = Ok (d, c1') -> c1' = c1 /\ save_json L s mode c2 = Ok (d, c2).
+Proof. exact json_save_member_order_independent. Qed.
+Print Assumptions C14_json_save_member_order_independent.
+
+Theorem C14_json_save_member_set_independent :
+  forall L s mode c1 c2 d c1',
+  reach_inb true s c1 = true -> settledb true s c1 = true -> member_set_variant c1 c2 -> members_nodup c1 -> members_nodup c2 ->
+  save_json L s mode c1 = Ok (d, c1') -> c1' = c1 /\ save_json L s mode c2 = Ok (d, c2).
+Proof. exact json_save_member_set_independent. Qed.
+Print Assumptions C14_json_save_member_set_independent.
+
+(* JSON: saving again writes the same document and changes nothing; sofa data arrays are byte arrays (they are written by
+   the views loop BEFORE the traversal, so an array of references would be written with the ids known at that time) *)
+Theorem C14_json_save_idempotent :
+  forall L s mode c d c2, 0 < c_next_id c -> sofa_arrays_bytesb c = true ->
+  save_json L s mode c = Ok (d, c2) -> save_json L s mode c2 = Ok (d, c2).
+Proof. exact json_save_idempotent. Qed.
+Print Assumptions C14_json_save_idempotent.
+
+(* JSON: a save changes nothing but the ids of id-less structures it writes (sofa data arrays in the views loop, then the
+   structures the traversal lists), fresh from the generator (no premise) *)
+Theorem C14_json_save_preserves_content :
+  forall L s mode c d c2, save_json L s mode c = Ok (d, c2) ->
+  exists c1 sofa_fs views w, save_found L s c = Ok (c1, sofa_fs, views, w) /\ c2 = cas_after c1 w /\
+    only_ids_added c c2 (fun i o => In o (sofa_arrays c) \/ In (i, o) (w_all w)).
+Proof. exact json_save_preserves_content. Qed.
+Print Assumptions C14_json_save_preserves_content.
+
+(* non-vacuity (JSON): same CASes, std_lex, all three modes *)
+Example C14_json_real_premises_hold :
+  reach_inb true dx_schema dx_cas = true /\ settledb true dx_schema dx_cas = true /\ sofa_arrays_bytesb dx_cas_noid = true /\
+  settledb true dx_schema dx_cas_noid = false /\
+  forallb (fun mode =>
+    match save_json std_lex dx_schema mode dx_cas, save_json std_lex dx_schema mode dx_cas_perm with
+    | Ok (d1, c1), Ok (d2, c2) => json_eqb d1 d2 && (c_next_id c1 =? 17) && (c_next_id c2 =? 17)
+    | _, _ => false end &&
+    match save_json std_lex dx_schema mode dx_cas_noid with
+    | Ok (d1, c1) => match save_json std_lex dx_schema mode c1 with
+                     | Ok (d2, c2) => json_eqb d1 d2 && (c_next_id c1 =? 19) && (c_next_id c2 =? 19)
+                     | _ => false end
+    | _ => false end) [MFull; MMinimal; MNone] = true.
+Proof. repeat split; vm_compute; reflexivity. Qed.
